@@ -1,4 +1,987 @@
-//! C17 — hvar subsetting: correspondence cases + oracles (filled in by the hvar model work).
+//! C17 — HVAR/VVAR subsetting: correspondence cases + oracles.
+//!
+//! Real code: `klippa::subset_font` (Hvar::subset / Vvar::subset, HvarVvarSubsetPlan,
+//! ItemVariationStore / ItemVariationData / DeltaSetIndexMap subsetting in variations.rs).
+//! Model: `lean/FontVerif/Model/SubsetHvar.lean`, command `c17.hvar.table`.
+//!
+//! correspondence: the HVAR / VVAR table of a font is read into plain data (regions, every
+//! ItemVariationData as item count / word delta count / region indexes / delta-set bytes, every
+//! DeltaSetIndexMap as entry format / map count / map data), sent to the model together with the
+//! plan's new_to_old_gid_list, glyphset and the retain-gids flag; the model's region list bytes,
+//! ItemVariationData bytes and map bytes are compared with the pieces cut out of the table klippa
+//! wrote (by offsets, from the raw bytes).  `dropped` = subset_font Ok without the table,
+//! `fail` = Err(SubsetTableError(tag)), `trap` = panic.
+//!
+//! oracle (real code only): for every kept glyph, every map (advance, lsb/tsb, rsb/bsb, vorg) and a
+//! set of normalised locations, read-fonts' delta on the subset at the new gid == on the original
+//! at the old gid.
 use fv_harness::common::*;
+use read_fonts::tables::variations::{DeltaSetIndexMap, ItemVariationStore};
+use read_fonts::types::{F2Dot14, Fixed, GlyphId, Tag};
+use read_fonts::{FontRef, ReadError, TableProvider};
 
-pub fn run(_cfg: &Config, _s: &mut Session, _r: &mut Rng) {}
+use super::{build_font, make_plan, Req, Syn, F_NOTDEF_OUTLINE, F_RETAIN_GIDS};
+
+// ---------------------------------------------------------------------------------------------
+// plain data of an HVAR / VVAR table (what the Lean model receives)
+// ---------------------------------------------------------------------------------------------
+
+#[derive(Clone, Debug)]
+pub struct SubT {
+    pub item_count: u16,
+    pub word_delta_count: u16,
+    pub region_indexes: Vec<u16>,
+    /// the delta-set bytes (row_len * item_count when well-formed)
+    pub data: Vec<u8>,
+}
+
+#[derive(Clone, Debug)]
+pub enum SubSlot {
+    Null,
+    Bad,
+    Ok(SubT),
+}
+
+#[derive(Clone, Debug)]
+pub struct MapT {
+    pub format: u8,
+    pub entry_format: u8,
+    pub map_count: u32,
+    pub data: Vec<u8>,
+}
+
+#[derive(Clone, Debug)]
+pub struct VarT {
+    pub axis_count: u16,
+    /// region -> axis -> (start, peak, end) raw F2Dot14
+    pub regions: Vec<Vec<(i16, i16, i16)>>,
+    pub subs: Vec<SubSlot>,
+    /// 3 (HVAR) or 4 (VVAR) maps
+    pub maps: Vec<Option<MapT>>,
+}
+
+fn row_len(wdc: u16, ric: usize) -> usize {
+    let long = wdc & 0x8000 != 0;
+    let wc = (wdc & 0x7FFF) as usize;
+    let (w, n) = if long { (4, 2) } else { (2, 1) };
+    wc * w + ric.saturating_sub(wc) * n
+}
+
+/// encode rows of i32 deltas under a given word_delta_count (values are truncated with `as`)
+pub fn encode_rows(wdc: u16, ric: usize, rows: &[Vec<i32>]) -> Vec<u8> {
+    let long = wdc & 0x8000 != 0;
+    let wc = (wdc & 0x7FFF) as usize;
+    let mut out = vec![];
+    for row in rows {
+        for c in 0..ric.max(wc) {
+            let v = row.get(c).copied().unwrap_or(0);
+            match (c < wc, long) {
+                (true, true) => out.extend_from_slice(&v.to_be_bytes()),
+                (true, false) | (false, true) => out.extend_from_slice(&(v as i16).to_be_bytes()),
+                (false, false) => out.push(v as i8 as u8),
+            }
+        }
+    }
+    out
+}
+
+fn sub_bytes(st: &SubT) -> Vec<u8> {
+    let mut o = vec![];
+    o.extend_from_slice(&st.item_count.to_be_bytes());
+    o.extend_from_slice(&st.word_delta_count.to_be_bytes());
+    o.extend_from_slice(&(st.region_indexes.len() as u16).to_be_bytes());
+    for r in &st.region_indexes {
+        o.extend_from_slice(&r.to_be_bytes());
+    }
+    o.extend_from_slice(&st.data);
+    o
+}
+
+fn map_bytes(m: &MapT) -> Vec<u8> {
+    let mut o = vec![m.format, m.entry_format];
+    if m.format == 0 {
+        o.extend_from_slice(&(m.map_count as u16).to_be_bytes());
+    } else {
+        o.extend_from_slice(&m.map_count.to_be_bytes());
+    }
+    o.extend_from_slice(&m.data);
+    o
+}
+
+fn region_list_bytes(v: &VarT) -> Vec<u8> {
+    let mut o = vec![];
+    o.extend_from_slice(&v.axis_count.to_be_bytes());
+    o.extend_from_slice(&(v.regions.len() as u16).to_be_bytes());
+    for r in &v.regions {
+        for (a, b, c) in r {
+            o.extend_from_slice(&a.to_be_bytes());
+            o.extend_from_slice(&b.to_be_bytes());
+            o.extend_from_slice(&c.to_be_bytes());
+        }
+    }
+    o
+}
+
+/// HVAR / VVAR table bytes: header, maps, store (header, region list, subtables); a `Bad` slot
+/// (only produced by the generator as the last subtable) points at a header that promises more
+/// delta sets than the table holds.
+pub fn table_bytes(v: &VarT) -> Vec<u8> {
+    let nmaps = v.maps.len();
+    let hdr = 8 + 4 * nmaps;
+    let mut maps_blob: Vec<u8> = vec![];
+    let mut map_offs = vec![];
+    for m in &v.maps {
+        match m {
+            None => map_offs.push(0u32),
+            Some(m) => {
+                map_offs.push((hdr + maps_blob.len()) as u32);
+                maps_blob.extend_from_slice(&map_bytes(m));
+            }
+        }
+    }
+    let store_off = hdr + maps_blob.len();
+    let mut store = vec![0, 1];
+    let store_hdr = 8 + 4 * v.subs.len();
+    let mut body: Vec<u8> = region_list_bytes(v);
+    let rl_off = store_hdr as u32;
+    let mut offs = vec![];
+    for st in &v.subs {
+        match st {
+            SubSlot::Null => offs.push(0u32),
+            SubSlot::Ok(st) => {
+                offs.push((store_hdr + body.len()) as u32);
+                body.extend_from_slice(&sub_bytes(st));
+            }
+            SubSlot::Bad => {
+                offs.push((store_hdr + body.len()) as u32);
+                // item count 60000, 1 short region column, no data behind it
+                body.extend_from_slice(&[0xEA, 0x60, 0, 1, 0, 1, 0, 0]);
+            }
+        }
+    }
+    store.extend_from_slice(&rl_off.to_be_bytes());
+    store.extend_from_slice(&(v.subs.len() as u16).to_be_bytes());
+    for o in offs {
+        store.extend_from_slice(&o.to_be_bytes());
+    }
+    store.extend_from_slice(&body);
+    let mut out = vec![0, 1, 0, 0];
+    out.extend_from_slice(&(store_off as u32).to_be_bytes());
+    for o in map_offs {
+        out.extend_from_slice(&o.to_be_bytes());
+    }
+    out.extend_from_slice(&maps_blob);
+    out.extend_from_slice(&store);
+    out
+}
+
+// ---------------------------------------------------------------------------------------------
+// reading a table of any font into plain data (read-fonts accessors only)
+// ---------------------------------------------------------------------------------------------
+
+fn extract_parts(
+    store: Result<ItemVariationStore, ReadError>,
+    maps: Vec<Option<Result<DeltaSetIndexMap, ReadError>>>,
+) -> Option<VarT> {
+    let store = store.ok()?;
+    let rl = store.variation_region_list().ok()?;
+    let axis_count = rl.axis_count();
+    let mut regions = vec![];
+    for r in rl.variation_regions().iter() {
+        let r = r.ok()?;
+        regions.push(
+            r.region_axes()
+                .iter()
+                .map(|a| (a.start_coord().to_bits(), a.peak_coord().to_bits(), a.end_coord().to_bits()))
+                .collect::<Vec<_>>(),
+        );
+    }
+    let arr = store.item_variation_data();
+    let mut subs = vec![];
+    for i in 0..store.item_variation_data_count() as usize {
+        subs.push(match arr.get(i) {
+            None => SubSlot::Null,
+            Some(Err(_)) => SubSlot::Bad,
+            Some(Ok(d)) => SubSlot::Ok(SubT {
+                item_count: d.item_count(),
+                word_delta_count: d.word_delta_count(),
+                region_indexes: d.region_indexes().iter().map(|r| r.get()).collect(),
+                data: d.delta_sets().to_vec(),
+            }),
+        });
+    }
+    let mut out_maps = vec![];
+    for m in maps {
+        out_maps.push(match m {
+            None => None,
+            Some(Err(_)) => return None,
+            Some(Ok(DeltaSetIndexMap::Format0(f))) => {
+                Some(MapT { format: 0, entry_format: f.entry_format().bits(), map_count: f.map_count() as u32, data: f.map_data().to_vec() })
+            }
+            Some(Ok(DeltaSetIndexMap::Format1(f))) => {
+                Some(MapT { format: 1, entry_format: f.entry_format().bits(), map_count: f.map_count(), data: f.map_data().to_vec() })
+            }
+        });
+    }
+    Some(VarT { axis_count, regions, subs, maps: out_maps })
+}
+
+pub fn extract(font: &FontRef, vertical: bool) -> Option<VarT> {
+    if vertical {
+        let t = font.vvar().ok()?;
+        extract_parts(
+            t.item_variation_store(),
+            vec![t.advance_height_mapping(), t.tsb_mapping(), t.bsb_mapping(), t.v_org_mapping()],
+        )
+    } else {
+        let t = font.hvar().ok()?;
+        extract_parts(t.item_variation_store(), vec![t.advance_width_mapping(), t.lsb_mapping(), t.rsb_mapping()])
+    }
+}
+
+// ---------------------------------------------------------------------------------------------
+// request line / real response
+// ---------------------------------------------------------------------------------------------
+
+fn request_line(v: &VarT, n2o: &[(u32, u32)], glyphset: &[u32], retain: bool) -> String {
+    let mut s = format!("c17.hvar.table {} {} R {}", retain as u8, v.axis_count, v.regions.len());
+    for r in &v.regions {
+        for (a, b, c) in r {
+            s.push_str(&format!(" {a} {b} {c}"));
+        }
+    }
+    s.push_str(&format!(" T {}", v.subs.len()));
+    for st in &v.subs {
+        match st {
+            SubSlot::Null => s.push_str(" n"),
+            SubSlot::Bad => s.push_str(" b"),
+            SubSlot::Ok(st) => {
+                s.push_str(&format!(" o {} {} {}", st.item_count, st.word_delta_count, st.region_indexes.len()));
+                for r in &st.region_indexes {
+                    s.push_str(&format!(" {r}"));
+                }
+                s.push(' ');
+                s.push_str(&hex(&st.data));
+            }
+        }
+    }
+    s.push_str(&format!(" P {}", v.maps.len()));
+    for m in &v.maps {
+        match m {
+            None => s.push_str(" n"),
+            Some(m) => s.push_str(&format!(" m {} {} {}", m.entry_format, m.map_count, hex(&m.data))),
+        }
+    }
+    s.push_str(" N ");
+    if n2o.is_empty() {
+        s.push('-');
+    } else {
+        s.push_str(&n2o.iter().map(|(a, b)| format!("{a} {b}")).collect::<Vec<_>>().join(" "));
+    }
+    s.push_str(" G ");
+    s.push_str(&join(glyphset));
+    s
+}
+
+fn u16_at(t: &[u8], p: usize) -> Option<usize> {
+    Some(u16::from_be_bytes(t.get(p..p + 2)?.try_into().ok()?) as usize)
+}
+fn u32_at(t: &[u8], p: usize) -> Option<usize> {
+    Some(u32::from_be_bytes(t.get(p..p + 4)?.try_into().ok()?) as usize)
+}
+
+/// what the written table consists of: the pieces are cut out by following the offsets in the raw bytes
+struct Pieces {
+    rl: Vec<u8>,
+    subs: Vec<Vec<u8>>,
+    maps: Vec<Option<Vec<u8>>>,
+}
+
+fn pieces(t: &[u8], nmaps: usize) -> Option<Pieces> {
+    let store_off = u32_at(t, 4)?;
+    let st = t.get(store_off..)?;
+    let rl_off = u32_at(st, 2)?;
+    let cnt = u16_at(st, 6)?;
+    let axis = u16_at(st, rl_off)?;
+    let nreg = u16_at(st, rl_off + 2)?;
+    let rl = st.get(rl_off..rl_off + 4 + 6 * axis * nreg)?.to_vec();
+    let mut subs = vec![];
+    for i in 0..cnt {
+        let off = u32_at(st, 8 + 4 * i)?;
+        if off == 0 {
+            subs.push(vec![]);
+            continue;
+        }
+        let ic = u16_at(st, off)?;
+        let wdc = u16_at(st, off + 2)? as u16;
+        let ric = u16_at(st, off + 4)?;
+        let len = 6 + 2 * ric + row_len(wdc, ric) * ic;
+        subs.push(st.get(off..off + len)?.to_vec());
+    }
+    let mut maps = vec![];
+    for k in 0..nmaps {
+        let off = u32_at(t, 8 + 4 * k)?;
+        if off == 0 {
+            maps.push(None);
+            continue;
+        }
+        let fmt = *t.get(off)?;
+        let ef = *t.get(off + 1)? as usize;
+        let es = ((ef >> 4) & 3) + 1;
+        let (hl, mc) = if fmt == 0 { (4, u16_at(t, off + 2)?) } else { (6, u32_at(t, off + 2)?) };
+        maps.push(Some(t.get(off..off + hl + es * mc)?.to_vec()));
+    }
+    Some(Pieces { rl, subs, maps })
+}
+
+fn pieces_response(p: &Pieces) -> String {
+    let cj = |v: Vec<String>| if v.is_empty() { "-".to_string() } else { v.join(",") };
+    format!(
+        "ok rl={} subs={} maps={}",
+        hex(&p.rl),
+        cj(p.subs.iter().map(|b| hex(b)).collect()),
+        cj(p.maps.iter().map(|m| m.as_ref().map(|b| hex(b)).unwrap_or_else(|| "null".into())).collect())
+    )
+}
+
+// ---------------------------------------------------------------------------------------------
+// synthetic fonts
+// ---------------------------------------------------------------------------------------------
+
+fn fvar_bytes(axis_count: u16) -> Vec<u8> {
+    use write_fonts::tables::fvar;
+    use write_fonts::types::NameId;
+    let tags: [&[u8; 4]; 4] = [b"wght", b"wdth", b"opsz", b"slnt"];
+    let recs: Vec<fvar::VariationAxisRecord> = (0..axis_count as usize)
+        .map(|i| {
+            fvar::VariationAxisRecord::new(
+                Tag::new(tags[i % 4]),
+                Fixed::from_f64(100.0),
+                Fixed::from_f64(400.0),
+                Fixed::from_f64(900.0),
+                0,
+                NameId::new(256 + i as u16),
+            )
+        })
+        .collect();
+    let f = fvar::Fvar::new(fvar::AxisInstanceArrays::new(recs, vec![]));
+    write_fonts::dump_table(&f).expect("fvar")
+}
+
+/// a glyf font with `n` tiny glyphs + fvar + the given HVAR/VVAR tables
+pub fn syn_font(name: &str, n: usize, hvar: Option<&VarT>, vvar: Option<&VarT>) -> Vec<u8> {
+    let glyph = |i: usize| -> Vec<u8> {
+        if i % 5 == 4 {
+            return vec![];
+        }
+        // one contour, 3 points, no instructions
+        let mut g = vec![0, 1, 0, 0, 0, 0, 0, 100, 0, 100, 0, 2, 0, 0];
+        g.extend_from_slice(&[0x37, 0x37, 0x37]); // on-curve, x short +, y short +
+        g.extend_from_slice(&[10, 20, (i % 50) as u8 + 1, 5, 30, 7]);
+        g
+    };
+    let sf = Syn {
+        name: name.to_string(),
+        glyphs: (0..n).map(glyph).collect(),
+        adv: (0..n).map(|i| 500 + (i % 7) as u16).collect(),
+        lsb: (0..n).map(|i| (i % 9) as i16).collect(),
+        num_long: n,
+        cmap: (1..n.min(90)).map(|g| (0x40 + g as u32, g as u32)).collect(),
+        long_loca: false,
+        align: 2,
+    };
+    let base = build_font(&sf);
+    let font = FontRef::new(&base).expect("base font");
+    let axis_count = hvar.or(vvar).map(|v| v.axis_count).unwrap_or(1);
+    let mut b = write_fonts::FontBuilder::new();
+    b.add_raw(Tag::new(b"fvar"), fvar_bytes(axis_count.max(1)));
+    if let Some(h) = hvar {
+        b.add_raw(Tag::new(b"HVAR"), table_bytes(h));
+    }
+    if let Some(v) = vvar {
+        b.add_raw(Tag::new(b"VVAR"), table_bytes(v));
+    }
+    b.copy_missing_tables(font);
+    b.build()
+}
+
+const EDGE_I8: [i32; 8] = [127, -128, 126, -127, 1, -1, 100, -100];
+const EDGE_I16: [i32; 10] = [128, -129, 32767, -32768, 32766, -32767, 255, -256, 1000, -1000];
+const EDGE_I32: [i32; 8] = [32768, -32769, 65536, -65536, 2147483647, -2147483648, 100000, -70000];
+
+/// a value of magnitude class `cls` (0 zero, 1 i8, 2 i16, 3 i32), edge values preferred
+fn class_value(r: &mut Rng, cls: u64) -> i32 {
+    match cls {
+        0 => 0,
+        1 => {
+            if r.chance(1, 2) {
+                *r.pick(&EDGE_I8)
+            } else {
+                r.range(-128, 127) as i32
+            }
+        }
+        2 => {
+            if r.chance(2, 3) {
+                *r.pick(&EDGE_I16)
+            } else {
+                r.range(-32768, 32767) as i32
+            }
+        }
+        _ => {
+            if r.chance(2, 3) {
+                *r.pick(&EDGE_I32)
+            } else {
+                r.range(-2147483648, 2147483647) as i32
+            }
+        }
+    }
+}
+
+fn rand_f2(r: &mut Rng) -> i16 {
+    match r.below(6) {
+        0 => 0,
+        1 => 16384,
+        2 => -16384,
+        3 => 8192,
+        4 => -8192,
+        _ => r.range(-16384, 16384) as i16,
+    }
+}
+
+fn rand_region(r: &mut Rng, axes: usize) -> Vec<(i16, i16, i16)> {
+    (0..axes)
+        .map(|_| match r.below(8) {
+            0 => (0, 16384, 16384),
+            1 => (-16384, -16384, 0),
+            2 => (0, 8192, 16384),
+            3 => (8192, 16384, 16384),
+            4 => (0, 0, 0), // axis ignored
+            5 => (-16384, -8192, 0),
+            6 => {
+                // sorted random tent on one side
+                let mut v = [r.range(0, 16384) as i16, r.range(0, 16384) as i16, r.range(0, 16384) as i16];
+                v.sort();
+                (v[0], v[1], v[2])
+            }
+            _ => (rand_f2(r), rand_f2(r), rand_f2(r)), // anything, incl. invalid (ignored) tents
+        })
+        .collect()
+}
+
+struct GenOpts {
+    weird: bool,
+}
+
+fn rand_sub(r: &mut Rng, nregions: usize, want_items: usize, o: &GenOpts) -> SubT {
+    let mut ric = if nregions == 0 { 0 } else { r.range(0, 5) as usize };
+    let mut region_indexes: Vec<u16> = (0..ric).map(|_| r.below(nregions.max(1) as u64) as u16).collect();
+    if r.chance(3, 4) {
+        // distinct region indexes (the usual shape)
+        let mut all: Vec<u16> = (0..nregions as u16).collect();
+        r.shuffle(&mut all);
+        region_indexes = all.into_iter().take(ric).collect();
+        ric = region_indexes.len();
+    }
+    if o.weird && ric > 0 && r.chance(1, 3) {
+        // a region index beyond the region list
+        let k = r.below(ric as u64) as usize;
+        region_indexes[k] = nregions as u16 + r.below(2) as u16;
+    }
+    let long = r.chance(1, 3);
+    let mut wc = r.range(0, ric as i64) as usize;
+    if o.weird && r.chance(1, 4) {
+        wc = ric + 1 + r.below(2) as usize; // more word columns than region indexes
+    }
+    let wdc = (wc as u16) | if long { 0x8000 } else { 0 };
+    // per column: capacity class and the class actually used (often smaller: columns get reclassified)
+    let cols = ric.max(wc);
+    let col_cls: Vec<u64> = (0..cols)
+        .map(|c| {
+            let cap = match (c < wc, long) {
+                (true, true) => 3,
+                (true, false) | (false, true) => 2,
+                (false, false) => 1,
+            };
+            match r.below(5) {
+                0 => 0,
+                1 => r.below(cap + 1),
+                _ => cap,
+            }
+        })
+        .collect();
+    let item_count = want_items;
+    let mut rows: Vec<Vec<i32>> = vec![];
+    for i in 0..item_count {
+        if i > 0 && r.chance(1, 6) {
+            let k = r.below(i as u64) as usize;
+            rows.push(rows[k].clone()); // duplicate row
+            continue;
+        }
+        if r.chance(1, 8) {
+            rows.push(vec![0; cols]);
+            continue;
+        }
+        rows.push(
+            col_cls
+                .iter()
+                .map(|&cls| {
+                    let c = if r.chance(1, 4) { r.below(cls + 1) } else { cls };
+                    class_value(r, c)
+                })
+                .collect(),
+        );
+    }
+    SubT { item_count: item_count as u16, word_delta_count: wdc, region_indexes, data: encode_rows(wdc, ric, &rows) }
+}
+
+/// pack (outer, inner) entries; `slack` widens the inner bit count / the entry size beyond the minimum
+fn pack_map(r: &mut Rng, entries: &[(u16, u16)], o: &GenOpts) -> MapT {
+    let max_inner = entries.iter().map(|e| e.1).max().unwrap_or(0) as u32;
+    let max_outer = entries.iter().map(|e| e.0).max().unwrap_or(0) as u32;
+    let mut bc = (32 - max_inner.leading_zeros()).max(1);
+    if r.chance(1, 3) {
+        bc = (bc + r.below(4) as u32).min(16);
+    }
+    let need_bits = bc + (32 - max_outer.leading_zeros());
+    let mut es = need_bits.div_ceil(8).max(1);
+    if r.chance(1, 4) {
+        es = (es + 1 + r.below(2) as u32).min(4);
+    }
+    if o.weird && max_outer == 0 && r.chance(1, 2) {
+        // entries narrower than the inner bit count: all bits are inner bits
+        es = 1;
+        bc = 8 + r.below(9) as u32;
+        if max_inner > 255 {
+            es = 2;
+            bc = 16;
+        }
+    }
+    let es = es.min(4);
+    let entry_format = (((es - 1) << 4) | (bc - 1)) as u8;
+    let mut data = vec![];
+    for (outer, inner) in entries {
+        let v: u32 = if bc >= 32 { *inner as u32 } else { (((*outer as u64) << bc) as u32) | *inner as u32 };
+        data.extend_from_slice(&v.to_be_bytes()[4 - es as usize..]);
+    }
+    let format = if r.chance(1, 8) { 1 } else { 0 };
+    MapT { format, entry_format, map_count: entries.len() as u32, data }
+}
+
+fn rand_map(r: &mut Rng, n: usize, subs: &[SubSlot], o: &GenOpts) -> MapT {
+    // map_count: mostly n, sometimes fewer (last entry repeats) or more
+    let mc = match r.below(6) {
+        0 => r.range(1, n as i64) as usize,
+        1 => n + r.below(3) as usize,
+        _ => n,
+    };
+    let usable: Vec<usize> = subs
+        .iter()
+        .enumerate()
+        .filter_map(|(i, s)| match s {
+            SubSlot::Ok(_) => Some(i),
+            _ => if o.weird { Some(i) } else { None },
+        })
+        .collect();
+    let items_of = |i: usize| match &subs[i] {
+        SubSlot::Ok(st) => st.item_count as usize,
+        _ => 3,
+    };
+    let mut entries: Vec<(u16, u16)> = vec![];
+    let concentrate = r.chance(1, 3);
+    for g in 0..mc {
+        if g > 0 && r.chance(1, 5) {
+            entries.push(entries[g - 1]); // runs of equal entries
+            continue;
+        }
+        if usable.is_empty() {
+            entries.push((0, 0));
+            continue;
+        }
+        let outer = if concentrate { usable[0] } else { *r.pick(&usable) };
+        let ic = items_of(outer);
+        let mut inner = if ic == 0 { 0 } else { r.below(ic as u64) as usize };
+        if r.chance(1, 25) {
+            inner = ic + r.below(3) as usize; // inner beyond the item count: delta 0
+        }
+        let mut outer = outer as u16;
+        if o.weird && r.chance(1, 12) {
+            outer = subs.len() as u16 + r.below(2) as u16; // no such subtable
+        }
+        entries.push((outer, inner as u16));
+    }
+    // a tail of equal entries (map_count trimming in the subsetter)
+    if r.chance(1, 3) && mc > 2 {
+        let k = r.range(1, (mc - 1) as i64) as usize;
+        let v = entries[mc - 1 - k];
+        for e in entries.iter_mut().skip(mc - k) {
+            *e = v;
+        }
+    }
+    pack_map(r, &entries, o)
+}
+
+/// a random HVAR (3 maps) or VVAR (4 maps) table for a font of `n` glyphs
+fn rand_table(r: &mut Rng, n: usize, nmaps: usize, o: &GenOpts) -> VarT {
+    let axis_count = r.range(1, 3) as u16;
+    let nregions = match r.below(8) {
+        0 => 0,
+        1 => 1,
+        _ => r.range(2, 7) as usize,
+    };
+    let regions: Vec<Vec<(i16, i16, i16)>> = (0..nregions).map(|_| rand_region(r, axis_count as usize)).collect();
+    let implicit_adv = r.chance(2, 5);
+    let nsubs = if o.weird && r.chance(1, 6) { 0 } else { r.range(1, 4) as usize };
+    let mut subs: Vec<SubSlot> = vec![];
+    for i in 0..nsubs {
+        let want = if i == 0 && implicit_adv {
+            // rows for (most of) the glyphs
+            match r.below(4) {
+                0 => r.range(0, n as i64) as usize,
+                _ => n + r.below(3) as usize,
+            }
+        } else {
+            r.range(0, 12) as usize
+        };
+        if o.weird && i > 0 && r.chance(1, 6) {
+            subs.push(SubSlot::Null);
+        } else {
+            subs.push(SubSlot::Ok(rand_sub(r, nregions, want, o)));
+        }
+    }
+    if o.weird && nsubs > 0 && r.chance(1, 8) {
+        subs.push(SubSlot::Bad);
+    }
+    let mut maps: Vec<Option<MapT>> = vec![];
+    for k in 0..nmaps {
+        let present = if k == 0 { !implicit_adv } else { r.chance(2, 5) };
+        maps.push(if present { Some(rand_map(r, n, &subs, o)) } else { None });
+    }
+    VarT { axis_count, regions, subs, maps }
+}
+
+// ---------------------------------------------------------------------------------------------
+// one request: correspondence + oracle
+// ---------------------------------------------------------------------------------------------
+
+fn coord_sets(r: &mut Rng, v: &VarT, extra: usize) -> Vec<Vec<F2Dot14>> {
+    let a = v.axis_count as usize;
+    let mut out: Vec<Vec<i16>> = vec![vec![], vec![16384; a], vec![-16384; a], vec![8192; a], vec![0; a]];
+    // region peaks, and points half way up each tent
+    for reg in v.regions.iter().take(12) {
+        out.push(reg.iter().map(|x| x.1).collect());
+        out.push(reg.iter().map(|x| ((x.0 as i32 + x.1 as i32) / 2) as i16).collect());
+    }
+    for _ in 0..extra {
+        out.push((0..a).map(|_| rand_f2(r)).collect());
+    }
+    // fewer coordinates than axes (missing = 0)
+    if a > 1 {
+        out.push(vec![16384]);
+    }
+    out.into_iter().map(|c| c.into_iter().map(F2Dot14::from_bits).collect()).collect()
+}
+
+fn delta(font: &FontRef, vertical: bool, k: usize, gid: u32, c: &[F2Dot14]) -> Result<i32, String> {
+    let g = GlyphId::new(gid);
+    let r = if vertical {
+        let t = font.vvar().map_err(|e| format!("{e:?}"))?;
+        match k {
+            0 => t.advance_height_delta(g, c),
+            1 => t.tsb_delta(g, c),
+            2 => t.bsb_delta(g, c),
+            _ => t.v_org_delta(g, c),
+        }
+    } else {
+        let t = font.hvar().map_err(|e| format!("{e:?}"))?;
+        match k {
+            0 => t.advance_width_delta(g, c),
+            1 => t.lsb_delta(g, c),
+            _ => t.rsb_delta(g, c),
+        }
+    };
+    r.map(|f| f.to_bits()).map_err(|e| format!("{e:?}"))
+}
+
+/// every reference inside the table resolves: subtables present and readable, region indexes inside the
+/// region list, every map entry names an existing subtable
+fn well_formed(v: &VarT) -> bool {
+    for st in &v.subs {
+        match st {
+            SubSlot::Ok(st) => {
+                if st.region_indexes.iter().any(|r| *r as usize >= v.regions.len()) {
+                    return false;
+                }
+            }
+            _ => return false,
+        }
+    }
+    for m in v.maps.iter().flatten() {
+        let es = (((m.entry_format >> 4) & 3) + 1) as usize;
+        let bc = ((m.entry_format & 15) + 1) as u32;
+        for e in m.data.chunks(es).take(m.map_count as usize) {
+            let mut x = 0u32;
+            for b in e {
+                x = (x << 8) | *b as u32;
+            }
+            if ((x >> bc) as u16) as usize >= v.subs.len() {
+                return false;
+            }
+        }
+    }
+    true
+}
+
+fn count_input_shape(s: &mut Session, v: &VarT, pfx: &str) {
+    s.count(&format!("{pfx}:adv-map:{}", if v.maps[0].is_some() { "explicit" } else { "implicit" }));
+    s.count(&format!("{pfx}:side-maps:{}", v.maps.iter().skip(1).filter(|m| m.is_some()).count()));
+    s.count(&format!("{pfx}:subtables:{}", v.subs.len().min(5)));
+    s.count(&format!("{pfx}:regions:{}", v.regions.len().min(8)));
+    for st in &v.subs {
+        match st {
+            SubSlot::Null => s.count(&format!("{pfx}:sub:null")),
+            SubSlot::Bad => s.count(&format!("{pfx}:sub:bad")),
+            SubSlot::Ok(st) => {
+                let long = st.word_delta_count & 0x8000 != 0;
+                s.count(&format!("{pfx}:sub:src-{}", if long { "long" } else { "short" }));
+                if (st.word_delta_count & 0x7FFF) as usize > st.region_indexes.len() {
+                    s.count(&format!("{pfx}:sub:words>regions"));
+                }
+            }
+        }
+    }
+    for m in v.maps.iter().flatten() {
+        s.count(&format!("{pfx}:map:entry-size-{}", ((m.entry_format >> 4) & 3) + 1));
+        s.count(&format!("{pfx}:map:format-{}", m.format));
+    }
+}
+
+fn count_output_shape(s: &mut Session, v: &VarT, p: &Pieces, pfx: &str) {
+    let nreg = u16_at(&p.rl, 2).unwrap_or(0);
+    s.count(&format!("{pfx}:out:regions:{}", if nreg < v.regions.len() { "pruned" } else { "all" }));
+    let nin = v.subs.iter().filter(|x| matches!(x, SubSlot::Ok(_))).count();
+    s.count(&format!("{pfx}:out:subtables:{}", if p.subs.len() < nin { "pruned" } else { "all" }));
+    for b in &p.subs {
+        let wdc = u16_at(b, 2).unwrap_or(0);
+        let ric = u16_at(b, 4).unwrap_or(0);
+        let wc = wdc & 0x7FFF;
+        s.count(&format!("{pfx}:out:sub:{}", if wdc & 0x8000 != 0 { "long" } else { "short" }));
+        s.count(&format!(
+            "{pfx}:out:cols:{}",
+            if ric == 0 { "none" } else if wc == 0 { "all-narrow" } else if wc == ric { "all-wide" } else { "mixed" }
+        ));
+    }
+    for m in p.maps.iter().flatten() {
+        s.count(&format!("{pfx}:out:map:width-{}", ((m[1] >> 4) & 3) + 1));
+        s.count(&format!("{pfx}:out:map:inner-bits-{}", (m[1] & 15) + 1));
+    }
+}
+
+/// Runs one request on a font: for HVAR and VVAR (whichever exist) the correspondence case and the oracle.
+fn run_request(s: &mut Session, r: &mut Rng, label: &str, data: &[u8], req: &Req, corr: bool, nloc: usize) {
+    let Ok(font) = FontRef::new(data) else { return };
+    let res = catch(|| {
+        let plan = make_plan(&font, req);
+        let pv = klippa::verif_hooks::plan_view(&plan);
+        (pv, klippa::subset_font(&font, &plan).map_err(|e| format!("{e:?}")))
+    });
+    let tables: Vec<(bool, &[u8; 4])> = vec![(false, b"HVAR"), (true, b"VVAR")];
+    let present: Vec<(bool, &[u8; 4])> = tables.into_iter().filter(|(_, t)| font.table_data(Tag::new(t)).is_some()).collect();
+    for (vertical, tag) in &present {
+        let tname = std::str::from_utf8(&tag[..]).unwrap();
+        let input = format!("font={label} flags={:#06x} gids=[{}] table={tname}", req.flags, join(&req.gids));
+        let Some(v) = extract(&font, *vertical) else {
+            s.count("hvar:skip:unreadable-table");
+            continue;
+        };
+        // the plan is needed for the request line: recompute it when subset_font panicked
+        let pv = match &res {
+            Ok((pv, _)) => pv.clone(),
+            Err(_) => match catch(|| klippa::verif_hooks::plan_view(&make_plan(&font, req))) {
+                Ok(pv) => pv,
+                Err(_) => {
+                    s.count("hvar:skip:plan-panic");
+                    continue;
+                }
+            },
+        };
+        let retain = req.flags & F_RETAIN_GIDS != 0;
+        // real outcome for this table
+        let (real, sub_font): (Option<String>, Option<&Vec<u8>>) = match &res {
+            Err(_) => (if present.len() == 1 { Some("trap".into()) } else { None }, None),
+            Ok((_, Err(e))) => (if e.contains(tname) { Some("fail".into()) } else { None }, None),
+            Ok((_, Ok(sub))) => {
+                let sf = FontRef::new(sub).ok();
+                match sf.as_ref().and_then(|f| f.table_data(Tag::new(tag))) {
+                    None => (Some("dropped".into()), Some(sub)),
+                    Some(t) => match pieces(t.as_bytes(), v.maps.len()) {
+                        Some(p) => {
+                            count_output_shape(s, &v, &p, "hvar");
+                            (Some(pieces_response(&p)), Some(sub))
+                        }
+                        None => (Some("unreadable-output".into()), Some(sub)),
+                    },
+                }
+            }
+        };
+        let Some(real) = real else {
+            s.count("hvar:skip:outcome-not-attributable");
+            continue;
+        };
+        s.count(&format!("hvar:res:{}", real.split(' ').next().unwrap_or("")));
+        count_input_shape(s, &v, "hvar");
+        if corr {
+            s.case("hvar-table", request_line(&v, &pv.new_to_old_gid_list, &pv.glyphset, retain), real.clone());
+        }
+        // ---- oracle: deltas of kept glyphs are preserved
+        let Some(sub) = sub_font else {
+            s.count("hvar:oracle-skip:no-subset");
+            continue;
+        };
+        let Ok(sf) = FontRef::new(sub) else { continue };
+        let coords = coord_sets(r, &v, nloc);
+        let dropped = sf.table_data(Tag::new(tag)).is_none();
+        if dropped {
+            s.count(if v.regions.is_empty() { "hvar:dropped:zero-regions" } else { "hvar:dropped:other" });
+        }
+        let wf = well_formed(&v);
+        if dropped && !wf {
+            // a table with dangling references may be refused as a whole
+            s.count("hvar:oracle-skip:malformed-table-dropped");
+            continue;
+        }
+        let mut bad: Option<String> = None;
+        let mut checked = 0usize;
+        'outer: for (new, old) in &pv.new_to_old_gid_list {
+            for k in 0..v.maps.len() {
+                for c in &coords {
+                    let a = delta(&font, *vertical, k, *old, c);
+                    let b = if dropped { Err("table absent".to_string()) } else { delta(&sf, *vertical, k, *new, c) };
+                    checked += 1;
+                    let same = match (&a, &b) {
+                        (Ok(x), Ok(y)) => x == y,
+                        // a dropped table reports nothing: fine exactly when there was nothing to report
+                        (Ok(x), Err(_)) if dropped => *x == 0,
+                        (Err(_), Err(_)) => true,
+                        // no map in the original (lsb/rsb/... absent): the subset must not invent one
+                        (Err(e), Ok(_)) if e.contains("NullOffset") => false,
+                        // the original itself cannot be read for this glyph (dangling index in a malformed table)
+                        (Err(_), Ok(_)) if !wf => {
+                            s.count("hvar:oracle:original-unreadable");
+                            true
+                        }
+                        _ => false,
+                    };
+                    if !same {
+                        bad = Some(format!(
+                            "map {k} new gid {new} old gid {old} coords {:?}: original {a:?} subset {b:?}",
+                            c.iter().map(|x| x.to_bits()).collect::<Vec<_>>()
+                        ));
+                        break 'outer;
+                    }
+                }
+            }
+        }
+        if checked > 0 {
+            s.oracle("hvar-delta-preserved", bad.is_none(), || input.clone(), || bad.clone().unwrap_or_default());
+        }
+    }
+}
+
+fn rand_req(r: &mut Rng, n: usize) -> Req {
+    let mut gids: Vec<u32> = vec![];
+    match r.below(8) {
+        0 => gids = (0..n as u32).collect(),
+        1 => gids.push(r.below(n as u64) as u32),
+        2 => {
+            // a suffix / prefix range
+            let a = r.below(n as u64) as u32;
+            if r.chance(1, 2) {
+                gids = (a..n as u32).collect();
+            } else {
+                gids = (0..=a).collect();
+            }
+        }
+        _ => {
+            let k = r.range(1, n as i64) as usize;
+            for _ in 0..k {
+                gids.push(r.below(n as u64) as u32);
+            }
+        }
+    }
+    gids.sort();
+    gids.dedup();
+    let mut flags = 0u16;
+    if r.chance(1, 3) {
+        flags |= F_RETAIN_GIDS;
+    }
+    if r.chance(1, 2) {
+        flags |= F_NOTDEF_OUTLINE;
+    }
+    Req { gids, unicodes: vec![], flags }
+}
+
+pub fn run(cfg: &Config, s: &mut Session, r: &mut Rng) {
+    let th = cfg.thorough();
+
+    // 1. synthetic fonts: well-formed tables
+    let nfonts = if th { 4000 } else { 260 };
+    for id in 0..nfonts {
+        let n = r.range(3, 40) as usize;
+        let o = GenOpts { weird: false };
+        let kind = r.below(6);
+        let hv = if kind != 1 { Some(rand_table(r, n, 3, &o)) } else { None };
+        let vv = if kind <= 2 { Some(rand_table(r, n, 4, &o)) } else { None };
+        let label = format!("syn:hvar#{id}");
+        let data = syn_font(&label, n, hv.as_ref(), vv.as_ref());
+        for _ in 0..(if th { 5 } else { 4 }) {
+            let req = rand_req(r, n);
+            run_request(s, r, &label, &data, &req, true, 4);
+        }
+    }
+    // 2. synthetic fonts: odd but parseable tables (one table per font so that every outcome is attributable)
+    let nweird = if th { 2500 } else { 160 };
+    for id in 0..nweird {
+        let n = r.range(3, 24) as usize;
+        let o = GenOpts { weird: true };
+        let vertical = r.chance(1, 3);
+        let t = rand_table(r, n, if vertical { 4 } else { 3 }, &o);
+        let label = format!("syn:hvar-odd#{id}");
+        let data = if vertical { syn_font(&label, n, None, Some(&t)) } else { syn_font(&label, n, Some(&t), None) };
+        for _ in 0..3 {
+            let req = rand_req(r, n);
+            run_request(s, r, &label, &data, &req, true, 2);
+        }
+    }
+    // 3. corpus fonts with HVAR / VVAR
+    let mut files: Vec<std::path::PathBuf> = vec![];
+    for dir in ["/repo/font-test-data/test_data/ttf", "/repo/klippa/test-data/fonts"] {
+        let mut f: Vec<_> = std::fs::read_dir(dir).map(|d| d.filter_map(|e| e.ok()).map(|e| e.path()).collect()).unwrap_or_default();
+        f.sort();
+        files.extend(f);
+    }
+    for p in files {
+        let ext = p.extension().and_then(|e| e.to_str()).unwrap_or("");
+        if ext != "ttf" && ext != "otf" {
+            continue;
+        }
+        let Ok(data) = std::fs::read(&p) else { continue };
+        let Ok(font) = FontRef::new(&data) else { continue };
+        if font.table_data(Tag::new(b"HVAR")).is_none() && font.table_data(Tag::new(b"VVAR")).is_none() {
+            continue;
+        }
+        let n = font.maxp().map(|m| m.num_glyphs() as usize).unwrap_or(0);
+        if n == 0 {
+            continue;
+        }
+        let label = format!("corpus:{}", p.file_name().unwrap().to_string_lossy());
+        s.count("hvar:corpus-fonts");
+        let big = data.len() > 400_000;
+        for i in 0..(if th { 40 } else { 5 }) {
+            let mut req = rand_req(r, n.min(if big { 600 } else { 4000 }));
+            if big && req.gids.len() > 200 {
+                req.gids.truncate(200);
+            }
+            run_request(s, r, &label, &data, &req, !big || i == 0, 3);
+        }
+    }
+}
